@@ -97,6 +97,21 @@ func checkC19(c *Ctx) {
 		c.Unk("C19.R1.yaml-from-json", "YAML marshalling sites", "", fmt.Sprintf("found %d sites, expected ≥ 3 (writeToFile, marshalToYAMLFormat, init spec)", nYAML))
 	}
 	checkFormatSwitches(c, pkgs)
+	// a rendering written over an existing longer file of the other run must not keep its tail:
+	// the document would reload differently (or not at all) in one format only
+	c.Rule("C19.R2.output-files", "every output file of the spec-writing commands is created truncated: os.Create, or os.OpenFile with O_TRUNC whenever it has O_CREATE (outside append/exclusive mode)", 3)
+	for _, pk := range pkgs {
+		ord := map[string]int{}
+		for _, cs := range goan.FindCalls([]*packages.Package{pk}, func(n string) bool { return n == "os.Create" || n == "os.WriteFile" }) {
+			k := fmt.Sprintf("%s.%s › %s", pk.Name, cs.FnName, cs.Callee)
+			ord[k]++
+			if ord[k] > 1 {
+				k = fmt.Sprintf("%s #%d", k, ord[k])
+			}
+			c.Ok("C19.R2.output-files", k, c.posOf(pk, cs.Call.Pos()), cs.Callee+" truncates")
+		}
+		checkOpenTruncates(c, "C19.R2.output-files", pk, nil, 0)
+	}
 	// --keep-spec-order: the x-order pass is format-agnostic, it never hands its input back unchanged
 	if gen := c.Prog("./generator").ByPath[load.Mod+"/generator"]; gen == nil {
 		c.Anchor("C19.R3.formats", "generator package", "not loaded")
